@@ -202,7 +202,7 @@ CLAIMED['C10'] = {
              'values (get_value_c, two-step prepare, BIOGEME.simulate, 1-3 threads) inside proved enclosures of the model\'s mean with deterministic tagged generators '
              'and with recorded native draws (all 21 types); seed reproducibility bit-for-bit; Integrate vs closed forms; Derive vs enclosure of D.'),
     'note': KERNEL + 'engine modelled from its C++ and only sampled; numpy array/moveaxis/RNG semantics assumed (RNG as arbitrary oracle); known finding: Derive through '
-            'bioLinearUtility is wrong in the external engine.',
+            'bioLinearUtility is wrong in the external engine; conflicting draw types are refused since the repair in /repo.',
 }
 
 CLAIMED['C16'] = {
@@ -218,6 +218,22 @@ CLAIMED['C16'] = {
              'and its inverse. PARTIAL: values compared through Python get_value and identical canonical signatures, not through the C++ engine; two Controller objects '
              'of one name are outside the model (open known finding).'),
     'note': KERNEL + 'tie-A extractor lib/props/c16_extract.py (py2v + fail-closed AST templates); CPython semantics of str.split/sorted/dict/set as modelled; random.choices as an arbitrary oracle.',
+}
+
+CLAIMED['C07'] = {
+    'technique': 'Rocq proof over definitions regenerated from source (tie A) + a hand model with an optimiser oracle (tie B); real estimations and recorded-call correspondence',
+    'text': ('Proved for all inputs: the function handed to the optimiser (NegativeLikelihood._f/_f_g/_f_g_h, translated on every run) is -L with gradient -grad L and '
+             'Hessian -hess L, so argmin = argmax and first-order conditions coincide; in the model of estimate (restart file, init value, optimize, final '
+             'evaluation, RawResults, write-back) the reported logLike, g, H, bhhh are those of L at the returned point and initLogLike is L at the start; every Beta '
+             'leaf named like a free parameter starts at its estimate, fixed ones are untouched; the generated tables prove which five algorithm names hand the '
+             'bounds to their routine and which four drop them (with a refutation witness), and which toml parameter reaches which routine keyword; for concave L '
+             'on a box a feasible first-order point is a global maximum, two such points have equal value (with an epsilon version), the projected gradient '
+             'vanishes exactly at first-order points. PARTIAL: final >= init, bounds respected, stationarity and agreement depend on the external optimisers: their '
+             'contracts appear as explicit hypotheses on an oracle and are only sampled (~1.1k estimations quick / ~33k thorough over all 9 algorithm names, 5 bound '
+             'configurations, restart files, quick_estimate; compared with recomputation and an independent numpy likelihood). One open known finding (false '
+             'convergence of the external simple_bounds with a pinned parameter).'),
+    'note': KERNEL + 'py2v plus the C07 extractors, validated each run against recorded real calls; biogeme_optimization, scipy.optimize.minimize, FunctionToMinimize, '
+            'cythonbiogeme are not verified; floats read as reals.',
 }
 
 _NOT_YET = 'check not built yet in this session (framework under construction); no claim made'
